@@ -1,6 +1,7 @@
 SPECIFICATION Spec
 CONSTANTS
   Modes = {"frame"}
+  MaxEntries = 3
   ExportScripts = TRUE
 VIEW View
 CHECK_DEADLOCK FALSE
